@@ -70,3 +70,5 @@ pub mod c37;
 pub mod c30;
 pub mod c24;
 pub mod c29;
+pub mod c36;
+pub mod c38;
